@@ -220,6 +220,115 @@ def run(ctx):
     lines = gen_lines(ctx)
     ctx.correspond("K1-codecs", lines, oracle=oracle, classify=classify_case,
                    nontrivial=lambda ln, m: m not in ("badinput",))
+    run_accessors(ctx)
+    run_floats(ctx)
+
+
+ALL_ACC = ["BO", "SZ", "IV", "I6", "BI", "FL", "DE", "TS", "ST", "SY", "BY", "SI"]
+
+
+def int_expect(z):
+    """tokens the accessors SZ IV I6 BI must give for the Ion integer z (SZ: any width that holds it)"""
+    iv = "I%d" % z if -2 ** 31 <= z < 2 ** 31 else "err"
+    i6 = "I%d" % z if -2 ** 63 <= z < 2 ** 63 else "err"
+    minsz = 1 if -2 ** 31 <= z < 2 ** 31 else (2 if -2 ** 63 <= z < 2 ** 63 else 3)
+    return minsz, iv, i6, "I%d" % z
+
+
+def run_accessors(ctx):
+    import iongen
+    import cursor
+    import binlib
+    rng = ctx.rng
+    ints = set()
+    for k in (7, 8, 15, 16, 31, 32, 33, 56, 62, 63, 64, 65, 70, 80):
+        for d in (-2, -1, 0, 1, 2):
+            ints.add((1 << k) + d)
+            ints.add(-((1 << k) + d))
+    ints |= set(range(-300, 300, 7)) | {0, 1, -1}
+    ints |= {rng.getrandbits(rng.randint(1, 90)) * rng.choice([1, -1]) for _ in range(ctx.scale(300, 5000))}
+    lines, exp = [], []
+    for z in sorted(ints):
+        f = [([], ("int", z))]
+        for free in (False, True, True):
+            doc = iongen.Enc(rng, free).stream(f)
+            lines.append("brd 0 %s N SZ IV I6 BI" % iongen.hx(doc))
+            exp.append(int_expect(z))
+        for txt in (str(z), ("-" if z < 0 else "") + "0x%X" % abs(z), ("-" if z < 0 else "") + "0b" + bin(abs(z))[2:]):
+            lines.append("brd 0 %s N SZ IV I6 BI" % iongen.hx(txt.encode()))
+            exp.append(int_expect(z))
+    bl = [l for l in lines if l.split(" ")[2].startswith("xe00100ea")]
+    mo, go = ctx.correspond("K2-int-accessors-binary", bl, nontrivial=lambda ln, m: m.startswith("T"))
+    outs = dict(zip(bl, go))
+    tl = [l for l in lines if l not in outs]
+    for l, g in zip(tl, run_go(tl)):
+        outs[l] = g
+    ctx.count("C13-int-accessors-text", len(tl), tl)
+    for ln, (minsz, iv, i6, bi) in zip(lines, exp):
+        t = outs[ln].split(" ")
+        why = None
+        if len(t) != 5 or t[0] != "T":
+            why = "unexpected answer " + outs[ln][:80]
+        else:
+            if not (t[1].startswith("z") and t[1][1:].isdigit() and int(t[1][1:]) >= minsz):
+                why = "IntSize %s names a width too small (needs >= %d)" % (t[1], minsz)
+            elif t[2] != iv:
+                why = "IntValue gave %s, expected %s" % (t[2], iv)
+            elif t[3] != i6:
+                why = "Int64Value gave %s, expected %s" % (t[3], i6)
+            elif t[4] != bi:
+                why = "BigIntValue gave %s, expected %s" % (t[4], bi)
+        if why:
+            ctx.fail("property", "C13-int-accessors", ln, why)
+    # accessor x value type x nullness (finite): every accessor on every type, null and not
+    vals = [("null", 1)] + [("null", t) for t in range(2, 14)] + [("bool", True), ("int", 5), ("int", 2 ** 70), ("float", 0x3FF8000000000000),
+            ("dec", 15, -1, False), ("ts", (2001, 2, 3, 4, 5, 6, 0, 0, 1, 5, 0)), ("sym", b"s"), ("str", b"x"), ("clob", b"c"), ("blob", b"b"),
+            ("list", []), ("sexp", []), ("struct", [])]
+    ml, mexp = [], []
+    for body in vals:
+        f = [([], body)]
+        doc = iongen.Enc(rng, False).stream(f)
+        for acc in ALL_ACC:
+            prog = ["N", acc, "TY", "NU"]
+            ml.append("brd 0 %s %s" % (iongen.hx(doc), " ".join(prog)))
+            mexp.append(cursor.run_program(f, [p for p in prog if p != "SZ"]) if acc != "SZ" else None)
+    mo, go = ctx.correspond("K2-accessor-matrix", ml, canon=binlib.canon_trace_full, nontrivial=lambda ln, m: True)
+    for ln, e, g in zip(ml, mexp, go):
+        if e is not None and iongen.project_trace(g) != e:
+            ctx.fail("property", "C13-accessor-matrix", ln, "reader '%s' ; documented behaviour '%s'" % (iongen.project_trace(g), e))
+    ctx.count("C13-accessor-matrix", len(ml), [], exhaustive=True)
+
+
+def run_floats(ctx):
+    import iongen
+    import binlib
+    rng = ctx.rng
+    bits = set(iongen.FLOAT_EDGES)
+    for f in binlib.boundary_forests():
+        for v in f:
+            if v[1][0] == "float":
+                bits.add(v[1][1])
+    for _ in range(ctx.scale(1500, 40000)):
+        e = rng.choice([0, 1, 2046, 2047, 896, 897, 898, 1150, 1151, 872, 873, 874, 880, rng.randrange(2048)])
+        m = rng.choice([0, 1, 1 << 28, 1 << 29, (1 << 29) - 1, (1 << 29) + 1, (1 << 52) - 1, rng.getrandbits(52), rng.getrandbits(23) << 29, rng.getrandbits(3) << 49])
+        bits.add((rng.getrandbits(1) << 63) | (e << 52) | m)
+    bits = sorted(bits)
+    wl = ["bw - FLOAT %d FIN" % b for b in bits]
+    mo, go = ctx.correspond("K10-float-write", wl, nontrivial=lambda ln, m: m.startswith("ok"))
+    rl, want = [], []
+    for b, g in zip(bits, go):
+        p = g.split(" ")
+        if p[0] != "ok":
+            ctx.fail("property", "C13-float", "bw - FLOAT %d FIN" % b, "write failed: " + g[:80])
+            continue
+        rl.append("btrav 0 " + p[2])
+        nan = (b >> 52) & 0x7FF == 0x7FF and b & ((1 << 52) - 1)
+        want.append(iongen.NAN if nan else b)
+    mo2, go2 = ctx.correspond("K10-float-read", rl, nontrivial=lambda ln, m: True)
+    for ln, w, g in zip(rl, want, go2):
+        t = g.split(" ")
+        if len(t) < 6 or t[5] != "F%d" % w:
+            ctx.fail("property", "C13-float", ln, "float bits %d written, read back as %s (a float may be stored in 32 bits only when that is lossless)" % (w, " ".join(t[3:7])))
 
 
 def classify_case(line, m, g):
